@@ -18,14 +18,14 @@ ASSUMPTIONS = [
     "similarity functions: Businger-Dyer (phi_m=(1-16x)^-1/4, phi_c=(1-16x)^-1/2 unstable; 1+5x stable), kappa=0.4",
     "MOSTM switches the along-wind horizontal diffusivity off by design: strict positivity is asserted for Kz and for the isotropic closures",
 ]
-MIN_NONTRIVIAL = {"quick": 300, "thorough": 6000}
-TIMEOUT = {"quick": 600, "thorough": 1800}
+MIN_NONTRIVIAL = {"quick": 300, "thorough": 19200}
+TIMEOUT = {"quick": 600, "thorough": 7000}
 KAP = 0.4
 CL, CM, CH = 0.845, 0.0856, 0.204
 
 
 def cases(tier, seed):
-    n = 640 if tier == "quick" else 12800
+    n = 640 if tier == "quick" else 51200
     out = [{"seed": seed, "idx": i, "kind": "profiles"} for i in range(n)]
     out += [{"seed": seed, "idx": i, "kind": "stability"} for i in range(16 if tier == "quick" else 64)]
     out_ = out
